@@ -48,6 +48,9 @@ FIXED = [
  ("F32","C18","d0da9eb","a model spec pickled in one process and restored in another (other hash seed) could not look up or subset its terms: cached Term hash travelled with the pickle"),
  ("F33","C04","7b233a7","'a + x | a:x': the later part's spec recorded no encoder state for factors already encoded for an earlier part; used alone on other data it re-inferred the levels"),
  ("F34","C04,C18,C13","bfed1e9","transform state keyed by environment-dependent (randomly suffixed) aliases of backtick-quoted names: state not found on reuse, and distinct names sanitizing alike shared one entry"),
+ ("F35","C20","5c7627c","ModelSpec.differentiate on a fitted spec kept the structure recorded for the original formula: materializing the gradient raised KeyError"),
+ ("F36","C19","cc790d5","slice replacement on a SimpleFormula (formula[0:2] = [term, term]) always raised FormulaInvalidError: the list of replacement terms was validated as if it were one term"),
+ ("F37","C19","dd92c67","Structured._map ran a function that accepts the context a second time on the same leaf when it raised TypeError itself"),
  ("F27","C05,C08","8c2b710","C(B) on a categorical column lost the declared category order under the narwhals materializer"),
 ]
 findings = [{"id": i, "property": p, "status": "open", "mechanism": m, "what": w} for i, p, m, w in OPEN]
